@@ -182,5 +182,17 @@ Definition all_good (v : verdict) : bool :=
 Definition corr_exact (pc : pcase) (impl : pout) : bool :=
   match run_pcase pc with Some m => pout_eqb m impl | None => false end.
 
+(* the same without the init trace: properties about Display operations observe the result of init, the state it
+   reports and everything each operation does — not which bytes init sent (that is C05 / C11 / C13 / C17's business) *)
+Definition corr_ops (pc : pcase) (impl : pout) : bool :=
+  match run_pcase pc with
+  | Some (r1, _, o1, l1) =>
+      let '(r2, _, o2, l2) := impl in
+      res_beq r1 r2 &&
+      match o1, o2 with Some x, Some y => obs_eqb x y | None, None => true | _, _ => false end &&
+      list_eqb opres_eqb l1 l2
+  | None => false
+  end.
+
 Definition model_out (pc : pcase) := run_pcase pc.
 Definition verdict_of (x : pcase * pout) := judge (fst x) (snd x).
